@@ -182,7 +182,7 @@ def is_signed(value: Value) -> bool:
         bool: True if the value is signed, False otherwise
 
     """
-    return bool(value.type.name.startswith("i"))
+    return bool(value.type.is_signed())
 
 
 def create_can_signals(
